@@ -133,6 +133,9 @@ def riemann(c):
     kinds = (['L', 'fanL'] if left_fan else ['L']) + ['s1', 's2'] + (['fanR', 'R'] if right_fan else ['R'])
     if len(kinds) != len(edges) - 1:
         return {}
+    # the waves are reported from left to right: a wave position behind its left neighbour means a wave was given the speed of the other family
+    if any(b < a - 1e-9 * (1 + abs(a)) for a, b in zip(X[:-1], X[1:])):
+        out['wave_positions_not_ordered'] = {'pattern': typ, 'Xregs': X}
     states = {}
     pad = 1e-6 if ig else 2e-2      # the general-EOS driver interpolates its own grid across the waves
     allf = {}
